@@ -274,7 +274,11 @@ impl CompactionHandover {
                 );
             }
 
+            #[cfg(sneldb_verif)]
+            crate::verif::point("handover.before_index_save");
             index.save(&self.shard_dir).await?;
+            #[cfg(sneldb_verif)]
+            crate::verif::point("handover.index_saved");
 
             if tracing::enabled!(tracing::Level::INFO) {
                 tracing::info!(
@@ -290,6 +294,8 @@ impl CompactionHandover {
         };
 
         // Update segment IDs: remove all drained segments, add all new segments
+        #[cfg(sneldb_verif)]
+        crate::verif::point("handover.lock_released");
         let retired_set: HashSet<&str> = drained_labels.iter().map(|s| s.as_str()).collect();
         let mut guard = self.segment_ids.write().unwrap();
         let before = guard.len();
@@ -308,6 +314,8 @@ impl CompactionHandover {
             "Updated shared segment id list"
         );
 
+        #[cfg(sneldb_verif)]
+        crate::verif::point("handover.live_updated");
         self.invalidate_caches(&drained_labels);
 
         Ok(drained_labels)
@@ -386,6 +394,8 @@ impl CompactionHandover {
             }
         }
 
+        #[cfg(sneldb_verif)]
+        crate::verif::point("reclaim.moved");
         for label in &retired {
             let path = batch_dir.join(label);
             match fs::remove_dir_all(&path) {
